@@ -127,8 +127,38 @@ def apply_model(model, op):
 # ------------------------------------------------------------------------------------------
 #  all views against the model
 # ------------------------------------------------------------------------------------------
+def _from_cnfgen(exc):
+    """was the exception raised inside cnfgen / networkx code (and not by this checker)?"""
+    import os
+    tb = exc.__traceback__
+    last = None
+    while tb is not None:
+        last = tb.tb_frame.f_code.co_filename
+        tb = tb.tb_next
+    here = os.path.abspath(__file__)
+    return last is not None and os.path.abspath(last) != here
+
+
 def check_views(G, model):
     """None or a (view, description) pair"""
+    try:
+        return _check_views(G, model)
+    except Exception as e:  # noqa
+        if _from_cnfgen(e):
+            return ('view-raises', 'a view raised {}: {}'.format(type(e).__name__, e))
+        raise
+
+
+def check_networkx(G, model):
+    try:
+        return _check_networkx(G, model)
+    except Exception as e:  # noqa
+        if _from_cnfgen(e):
+            return ('networkx-raises', 'conversion raised {}: {}'.format(type(e).__name__, e))
+        raise
+
+
+def _check_views(G, model):
     E = model.E
     if model.bip:
         L, R = model.n
@@ -198,7 +228,7 @@ def check_views(G, model):
     return None
 
 
-def check_networkx(G, model):
+def _check_networkx(G, model):
     """to_networkx has the vertices and edges of the model, and from_networkx gives them back"""
     import networkx
     E = model.E
